@@ -209,7 +209,7 @@ def intruder_during_wait(ctx):
     import tracecheck
     from props import c04
     gp = ctx.path("intruder.ndjson")
-    vlib.run_bin("merge_driver", ["gated", "--seed", ctx.seed + 77, "--runs", 12 if ctx.quick else 120, "--out", gp], timeout=900)
+    vlib.run_bin("merge_driver", ["gated", "--only", "wait_with_intruder", "--seed", ctx.seed + 77, "--runs", 3 if ctx.quick else 30, "--out", gp], timeout=900)
     ev = vlib.read_ndjson(gp)
     runs = [r for r in c04.prep(ev) if any(e.get("ev") == "intruder_create" for e in r)]
     att = sum(1 for r in runs for e in r if e["ev"] == "intruder_create")
@@ -217,6 +217,15 @@ def intruder_during_wait(ctx):
     ctx.cov["traces_validated_against_impl"] += n
     ctx.cov["intruder_during_wait_merging_threads"] = {"runs": len(runs), "creation_attempts": att, "accepted": n}
     log(f"[R] writer creation attempted during wait_merging_threads (merge parked): {att} attempts in {len(runs)} runs, {n} accepted")
+    # the writer is dropped while its merge thread is parked inside merge(): the lock goes with the writer
+    # object (drop_writer must leave no lock file) and a new writer is created at once
+    dp = ctx.path("drop_during_merge.ndjson")
+    vlib.run_bin("merge_driver", ["gated", "--only", "drop_during_merge", "--seed", ctx.seed + 78, "--runs", 3 if ctx.quick else 30, "--out", dp], timeout=900)
+    druns = c04.prep(vlib.read_ndjson(dp))
+    n2 = tracecheck.validate_runs(ctx, druns, "drop_during_merge", "MergeTrace", "MergeTrace.cfg", key=lambda r: json.dumps(r[0].get("tag")), timeout=300)
+    ctx.cov["traces_validated_against_impl"] += n2
+    ctx.cov["drop_during_merge"] = {"runs": len(druns), "accepted": n2}
+    log(f"[R] writer dropped while its merge thread is parked, new writer at once: {n2}/{len(druns)} runs accepted")
 
 
 def binding_selftest(ctx, runs):
